@@ -67,7 +67,7 @@ def main():
         ok = all(meta["confirmed"].values())
         print("confirmed:", meta["confirmed"])
         dst = os.path.join(VERIF, "seeded", name)
-        if ok:
+        if ok and os.path.abspath(src) != os.path.abspath(dst):
             os.makedirs(dst, exist_ok=True)
             shutil.copy(patch, os.path.join(dst, "patch.diff"))
             shutil.copy(demo, os.path.join(dst, "demo_mutant.rs"))
